@@ -163,20 +163,22 @@ func (g *arrGen) next(mode int) int64 {
 		}
 	case 1: // window edge: late packets and jumps at size-1, size, size+1
 		edge := []int64{sz - 2, sz - 1, sz, sz + 1, sz + 2, 2*sz - 1, 2 * sz, 2*sz + 1}
+		edgeName := []string{"size-2", "size-1", "size", "size+1", "size+2", "2size-1", "2size", "2size+1"}
 		switch {
 		case p < 35:
 			u = fwd(1 + int64(r.Intn(3)))
 		case p < 65:
-			d := edge[r.Intn(len(edge))]
-			u = g.hi - d
-			g.bk[fmt.Sprintf("late-d=size%+d", d-sz)] = true
+			ei := r.Intn(len(edge))
+			u = g.hi - edge[ei]
+			g.bk["late-d="+edgeName[ei]] = true
 		case p < 85:
-			d := edge[r.Intn(len(edge))]
+			ei := r.Intn(len(edge))
+			d := edge[ei]
 			if d >= 32768 {
 				d = 32767
 			}
 			u = fwd(d)
-			g.bk[fmt.Sprintf("jump-d=size%+d", d-sz)] = true
+			g.bk["jump-d="+edgeName[ei]] = true
 		default:
 			u = g.hi - sz - int64(r.Intn(int(3*sz)))
 			g.bk["late-behind-window"] = true
@@ -258,17 +260,18 @@ func genCore(r *rand.Rand) (int64, [][2]int64, []string) {
 	g := newArrGen(r, size, bk)
 	mode := r.Intn(4)
 	bk[fmt.Sprintf("mode=%d", mode)] = true
-	n := 10 + r.Intn(90)
-	qprob := 60
-	maxq := 1000
+	n := 8 + r.Intn(50)
+	qprob := 40
+	maxq := 25
 	if size >= 256 {
-		n = 10 + r.Intn(50)
-		qprob = 25
+		n = 8 + r.Intn(30)
+		qprob = 20
+		maxq = 6
 	}
 	if big {
-		n = 8 + r.Intn(25)
+		n = 6 + r.Intn(16)
 		qprob = 15
-		maxq = 3
+		maxq = 2
 	}
 	ops := [][2]int64{}
 	q := 0
@@ -516,7 +519,7 @@ const sentinelSSRC = 999
 func genAPI(r *rand.Rand) (apiCase, []string) { //nolint:gocognit,cyclop
 	bk := map[string]bool{}
 	c := apiCase{Sentinel: sentinelSSRC}
-	c.Size = []int64{64, 64, 64, 128, 128, 256, 512, 1024}[r.Intn(8)]
+	c.Size = []int64{64, 64, 64, 64, 128, 128, 256, 512}[r.Intn(8)]
 	c.Skip = []int64{0, 0, 0, 0, 1, 2, 3, 5, 10}[r.Intn(9)]
 	c.Max = []int64{0, 0, 0, 1, 1, 2, 3, 5}[r.Intn(8)]
 	if r.Intn(20) == 0 { // nothing can ever be requested: skipLastN >= size
@@ -540,9 +543,9 @@ func genAPI(r *rand.Rand) (apiCase, []string) { //nolint:gocognit,cyclop
 	}
 	streams := []*st{}
 	for i := 0; i < nStreams; i++ {
-		s := &st{ssrc: int64(1111 * (i + 1)), mode: r.Intn(3)}
-		if r.Intn(3) == 0 {
-			s.mode = 0
+		s := &st{ssrc: int64(1111 * (i + 1)), mode: r.Intn(2)}
+		if r.Intn(6) == 0 {
+			s.mode = 2
 		}
 		s.g = newArrGen(r, c.Size, bk)
 		if i > 0 && r.Intn(3) == 0 {
@@ -567,7 +570,11 @@ func genAPI(r *rand.Rand) (apiCase, []string) { //nolint:gocognit,cyclop
 			add(0, sentinelSSRC, sentSeq, 0)
 		}
 	}
-	rounds := 4 + r.Intn(10)
+	rounds := 4 + r.Intn(8)
+	fullCycleAt := -1
+	if c.Max > 0 && r.Intn(12) == 0 {
+		fullCycleAt = 1 + r.Intn(rounds-1)
+	}
 	for rd := 0; rd < rounds; rd++ {
 		for _, s := range streams {
 			if !s.bound && s.from == rd {
@@ -591,7 +598,7 @@ func genAPI(r *rand.Rand) (apiCase, []string) { //nolint:gocognit,cyclop
 				n = 0
 				bk["idle-round"] = true
 			}
-			if r.Intn(30) == 0 && c.Max > 0 {
+			if fullCycleAt == rd && s == streams[0] {
 				// the same 16-bit numbers come back one full cycle later between two ticks
 				for _, d := range []int64{21846, 21846, 21844} {
 					s.g.hi += d
@@ -666,13 +673,13 @@ func main() {
 		load(f, "corpus")
 	}
 
-	ncore := o.Scale(1400, 60000)
+	ncore := o.Scale(1000, 60000)
 	for i := 0; i < ncore; i++ {
 		size, ops, bk := genCore(r)
 		core.Cases = append(core.Cases, runCore(size, ops).toCase(bk))
 	}
 
-	napi := o.Scale(260, 8000)
+	napi := o.Scale(220, 8000)
 	type job struct {
 		in apiCase
 		bk []string
